@@ -141,6 +141,11 @@ func (fa *fileAnalysis) engine(fn *ssa.Function) *an.Facts {
 			if cur["nn:"+d.Of(v)] {
 				cur["nn:"+path] = true
 			}
+		case *ssa.Call:
+			// a coalescing helper (`orDefault(own, inherited, fallback)`) that never returns nil
+			if cs := coalesceOf(an.Callee(v)); cs != nil && cs.nonNil() {
+				cur["nn:"+path] = true
+			}
 		case *ssa.UnOp:
 			if ptrField(v) {
 				q := d.Of(v)
